@@ -810,8 +810,11 @@ def execute(seed, mode, is_client, wt, n_requests, schedule, with_logger, cfg):
     now += 0.001
     transmit("after the last event")
     if rep.closed is None:
-        quic.close(error_code=0x100, reason_phrase="")  # application shuts down (H3_NO_ERROR)
-        rep.closed = None
+        # the application shuts down (H3_NO_ERROR) with a text of its own ("whatever text the error message
+        # contains": long, non-ASCII, more bytes than characters, not encodable at all)
+        reason = APP_REASONS[cfg.get("app_reason", 0) % len(APP_REASONS)]
+        quic.close(error_code=0x100, reason_phrase=reason)
+        rep.closed = (0x100, reason) if reason else None
         transmit("after an ordinary close")
     try:  # probe only: which close does the peer's transport report once its draining period is over
         tm = t.peer.get_timer()
@@ -862,6 +865,9 @@ def execute(seed, mode, is_client, wt, n_requests, schedule, with_logger, cfg):
     return rep
 
 
+APP_REASONS = ("", "bye", "\u00e9" * 900, "\u4e2d" * 700, "y" * 2000, "\u00e9" * 600 + "z" * 600, "a\udcffb")
+
+
 def _hex(b):
     b = bytes(b)
     return b.hex() if len(b) <= 48 else "%s..(%d bytes)" % (b[:40].hex(), len(b))
@@ -903,6 +909,7 @@ def run_one(seed, tier="quick", variant=None, replay=None):
     n_requests = (1 + cfgs.choose(3)) if is_client else 0
     cfg = {"transmit_each": cfgs.chance(0.3),
            "unconfirmed": is_client and cfgs.chance(0.4),
+           "app_reason": cfgs.choose(len(APP_REASONS)) if cfgs.chance(0.5) else 0,
            "mds": [1200, 1280, 1350, 1472, 1252][cfgs.choose(5)]}
     hp = Hostile(ch, mode, is_client, wt, [4 * i for i in range(n_requests)])
     if mode == "h0":
